@@ -122,14 +122,52 @@ def fanout_sweep(ctx, F, prefix, method):
                   "every element receives the very item passed in (or its clone)", b.span)
 
 
+CLOSURE_CALLS = ("core::ops::function::FnMut::call_mut", "core::ops::function::FnOnce::call_once", "core::ops::function::Fn::call")
+
+
+def sweep_region(F, b):
+    """(bodies, delegates): the method body, the workspace-local helpers it calls (two levels), all their closures; `delegates` are the
+    closures that are handed to such a helper as an argument (their return value is consumed by the helper, not by the caller)"""
+    bodies, delegates, seen = [], [], set()
+
+    def add(bd, depth):
+        if bd.path in seen:
+            return
+        seen.add(bd.path)
+        bodies.append(bd)
+        for cl in F.closures_of(bd):
+            add(cl, depth)
+        if depth <= 0:
+            return
+        for c in bd.calls():
+            res = c.t.get("resolved") or c.callee
+            cb = F.bodies.get(res)
+            if cb is not None and cb.kind in ("Fn", "AssocFn") and not cb.is_coroutine and "::sink::" in cb.path:
+                for a in c.args:
+                    r = flow.root(bd, a, through_calls=()) if a.get("k") in ("copy", "move") else None
+                    if r and r[0] == "rv" and r[1]["k"] == "agg" and r[1].get("agg") == "closure":
+                        delegates.append(r[1]["closure"])
+                add(cb, depth - 1)
+    add(b, 2)
+    return bodies, delegates
+
+
+def polled_calls(body):
+    """the calls that poll one element: a Sink method on the element, or a call of a closure parameter that does so"""
+    ind = [c for c in body.calls() if strip_generics(c.callee) in CLOSURE_CALLS and c.dest is not None]
+    return child_calls(body) + ind
+
+
 def never_propagates_child_error(ctx, F, prefix, adt, method):
     b = F.impl_method("futures_sink::Sink", adt, method)
-    bodies = [b] + F.closures_of(b)
+    bodies, delegates = sweep_region(F, b)
     ctx.touch(*bodies)
     short = adt.rsplit("::", 1)[-1]
     ok = True
     for bd in bodies:
-        for c in child_calls(bd):
+        if bd.path in delegates:
+            continue      # its value is consumed by the helper's sweep, which is checked below like any other poll
+        for c in polled_calls(bd):
             dv = flow.derived(bd, {c.dest["l"]}, calls="all")
             # the child's result must not flow into the return value, except through a Pending/Ready discriminant test
             for i, j, pl, rv, s in bd.assigns():
@@ -148,14 +186,31 @@ def never_propagates_child_error(ctx, F, prefix, adt, method):
 
 def router_retain(ctx, F, prefix, method):
     b = F.impl_method("futures_sink::Sink", ROUTER, method)
-    cls = F.closures_of(b)
-    ctx.touch(b, *cls)
-    rt = [c for c in b.calls() if c.name() == "retain"]
-    if not ctx.check(len(rt) == 1 and len(cls) == 1, prefix + ".retain-shape", "router:%s:shape" % method, "Router::%s sweeps its entries with one retain closure" % method, b.span):
+    bodies, delegates = sweep_region(F, b)
+    ctx.touch(*bodies)
+    rt = [(bd, c) for bd in bodies for c in bd.calls() if c.name() == "retain"]
+    cb = None
+    if len(rt) == 1:
+        bd, c = rt[0]
+        for a in c.args[1:]:
+            r = flow.root(bd, a, through_calls=()) if a.get("k") in ("copy", "move") else None
+            if r and r[0] == "rv" and r[1]["k"] == "agg" and r[1].get("agg") == "closure":
+                cb = F.bodies.get(r[1]["closure"])
+    if not ctx.check(cb is not None, prefix + ".retain-shape", "router:%s:shape" % method, "Router::%s sweeps its entries with one retain closure" % method, b.span):
         return
-    cb = cls[0]
-    cc = child_calls(cb)
-    if not ctx.check(len(cc) == 1, prefix + ".retain-shape", "router:%s:closure-calls" % method, "the retain closure polls the entry exactly once", cb.span):
+    cc = polled_calls(cb)
+    # the element method that is polled: directly in the retain closure, or in the single delegate closure handed to the helper
+    direct = child_calls(cb)
+    dl = [F.bodies[d] for d in delegates if d in F.bodies]
+    if direct:
+        named = direct
+        dl_ok = True
+    else:
+        named = [c for d in dl for c in child_calls(d)]
+        # a delegate returns the element's answer untouched
+        dl_ok = len(dl) == 1 and all(c.dest is not None and (c.dest["l"] == 0 or 0 in flow.derived(d, {c.dest["l"]}, calls=())) for d in dl for c in child_calls(d))
+    shape = len(cc) == 1 and len(named) == 1 and named[0].name() == method and dl_ok
+    if not ctx.check(shape, prefix + ".retain-shape", "router:%s:closure-calls" % method, "the retain closure polls the entry's %s exactly once" % method, cb.span):
         return
     m, sbb = flow.switch_after_call(cb, cc[0], want_bb=True) or ({}, None)
     # `false` (evict) is returned only on Ready(Err)
